@@ -79,7 +79,9 @@ GPLocale gp_locale(const char* locale_code)
         return gp_default_locale;
 
     GPUint128 key = gp_u128(0, gp_bytes_hash64(locale_code, strlen(locale_code)));
-    GP_MAYBE_ATOMIC GPLocale locale = (GPLocale)gp_map_get(gp_locale_table, key);
+    gp_mutex_lock(&gp_locale_table_mutex);
+    GPLocale locale = (GPLocale)gp_map_get(gp_locale_table, key);
+    gp_mutex_unlock(&gp_locale_table_mutex);
 
     if (locale == (GPLocale)0)
     {
